@@ -61,7 +61,7 @@ Theorem C03_z_suffix :
 Proof. intros s Hs; split; [apply z_suffix_written | apply z_untouched]; assumption. Qed.
 Print Assumptions C03_z_suffix.
 
-(* Outside that region the faithful model violates the documented encoding (finding F22):
+(* Outside that region the faithful model violates the documented encoding (finding F43):
    an aware datetime whose UTC offset is +00:00:30. *)
 Definition f22_tok : tok := mkTok KDateTime (S "2020-01-01T00:00:00+00:00:30") [] 1577836770.
 Theorem C03_refuted_subminute_offset :
